@@ -447,6 +447,16 @@ func (w *World) StorageOpts(extra ...nodeenrollment.Option) []nodeenrollment.Opt
 	return append(o, extra...)
 }
 
+// ObsOpts is StorageOpts for the harness' OWN observations of storage: the same key material behind a wrapper object of
+// its own, so that what the harness reads never depends on (or feeds) anything the library remembers per wrapper object.
+func (w *World) ObsOpts() []nodeenrollment.Option {
+	if w.StorageWrapper == None {
+		return nil
+	}
+	sw := w.Wrappers[w.StorageWrapper]
+	return []nodeenrollment.Option{nodeenrollment.WithStorageWrapper(&SafeAead{Wrapper: sw.Wrapper, Name: sw.Name})}
+}
+
 func (w *World) InitRoots(opt ...nodeenrollment.Option) (*types.RootCertificates, error) {
 	return rotation.RotateRootCertificates(w.Ctx, w.Store, w.StorageOpts(opt...)...)
 }
@@ -660,7 +670,7 @@ func (w *World) ObserveKeys(keys []string) {
 	}
 	for _, k := range keys {
 		ck := w.EnsureCertKey(k)
-		ni, err := types.LoadNodeInformation(w.Ctx, w.Inner, ck.KeyId, w.StorageOpts()...)
+		ni, err := types.LoadNodeInformation(w.Ctx, w.Inner, ck.KeyId, w.ObsOpts()...)
 		last, had := w.lastSrc[k]
 		if err != nil || len(ni.ServerEncryptionPrivateKeyBytes) == 0 {
 			if had && !w.recordPresent(k) {
@@ -689,7 +699,7 @@ func (w *World) ObserveKeys(keys []string) {
 func (w *World) NodeSideKeySource(rec string) (*types.NodeCredentials, error) {
 	if rec != "rand" && rec != None && rec != "" {
 		ck := w.EnsureCertKey(rec)
-		ni, err := types.LoadNodeInformation(w.Ctx, w.Inner, ck.KeyId, w.StorageOpts()...)
+		ni, err := types.LoadNodeInformation(w.Ctx, w.Inner, ck.KeyId, w.ObsOpts()...)
 		if err == nil {
 			encName := w.EncName(ni.EncryptionPublicKeyBytes)
 			if ek, ok := w.EncKeys[encName]; ok {
@@ -847,7 +857,7 @@ func (w *World) Project(certNames, tokNames []string) Proj {
 	sort.Strings(ids)
 	for _, id := range ids {
 		name := w.CertNameById(id)
-		ni, err := types.LoadNodeInformation(w.Ctx, w.Inner, id, w.StorageOpts()...)
+		ni, err := types.LoadNodeInformation(w.Ctx, w.Inner, id, w.ObsOpts()...)
 		if err != nil {
 			p.Extra = append(p.Extra, "unloadable:"+name)
 			continue
